@@ -480,18 +480,21 @@ def run_c13(ctx, spec, out):
             if l.get("op") == "world":
                 idle_iv = l["world"]["config"].get("idle_interval")
         prev_ago, adv, queried = None, 0.0, False
+        prev_st, prev_bq, prev_line = None, None, None
         checked = {cid for cid, _, _ in h.checks}
         for l in h.impl:
             if l.get("op") == "advance":
                 adv += l["seconds"]
             elif l.get("op") == "query":
                 queried = True
+            this_prev, prev_line = prev_line, l
             if l.get("id") not in checked:
                 continue
+            prev_line = this_prev
             a = impl.get(l["id"]) or {}
             st = a.get("state") or {}
             if not st:
-                prev_ago = None
+                prev_ago, prev_st, prev_line = None, None, l
                 continue
             if l.get("op") == "tick" and a.get("ran") and st.get("idling") and prev_ago is not None and not queried and idle_iv:
                 gap = prev_ago + adv
@@ -500,7 +503,19 @@ def run_c13(ctx, spec, out):
                                          % (l["id"], gap, idle_iv)))
                     break
                 v.stats["idle_refreshes_judged"] = v.stats.get("idle_refreshes_judged", 0) + 1
+            # "the first query after idling triggers a refresh before it is answered": the backend is asked, the idle mode ends
+            if l.get("op") == "state" and prev_line is not None and prev_line.get("op") == "query" and prev_line.get("text", "").startswith("GET hosts") \
+                    and prev_st is not None and prev_st.get("idling") and prev_st.get("status") == 0 and prev_st.get("has_data") \
+                    and a.get("backend_queries") is not None and prev_bq is not None:
+                # a backend that refuses the connection receives nothing: the attempt then shows in the error bookkeeping
+                attempted = a["backend_queries"] > prev_bq or st.get("error_count", 0) > prev_st.get("error_count", 0) or st.get("last_error")
+                if st.get("idling") or not attempted:
+                    v.violations.append(("property", case, "step id %d: a client query reached an idling backend (up, with data) and was answered without a refresh: idling afterwards=%s, backend queries before=%s after=%s"
+                                         % (l["id"], st.get("idling"), prev_bq, a["backend_queries"])))
+                    break
+                v.stats["spinups_judged"] = v.stats.get("spinups_judged", 0) + 1
             prev_ago, adv, queried = float(st.get("last_update_ago", 0)), 0.0, False
+            prev_st, prev_bq, prev_line = st, a.get("backend_queries"), l
         for i, (cid, kind, what) in enumerate(h.checks):
             if not ok:
                 break
